@@ -82,14 +82,18 @@ def stmt_items(stmts):
             continue  # docstring / bare string
         elif isinstance(s, ast.Assign) and isinstance(s.value, ast.Call):
             name = attr_chain(s.value.func)
-            tgt = s.targets[0].id if isinstance(s.targets[0], ast.Name) else "?"
             if name and name.startswith("self.model.calc_"):
                 items.append(f".call {lstr(name)}")
+            elif len(s.targets) == 1 and isinstance(s.targets[0], ast.Name):
+                items.append(f".assign {lstr(s.targets[0].id)}")          # a local variable
             else:
-                items.append(f".assign {lstr(tgt)}")
+                items.append(f".unknown {lstr('assignment to ' + ast.unparse(s.targets[0])[:50])}")
         elif isinstance(s, ast.Assign):
-            tgt = s.targets[0].id if isinstance(s.targets[0], ast.Name) else (attr_chain(s.targets[0]) or "?")
-            items.append(f".assign {lstr(tgt)}")
+            if len(s.targets) == 1 and isinstance(s.targets[0], ast.Name):
+                items.append(f".assign {lstr(s.targets[0].id)}")          # a local variable
+            else:
+                # assigning to an attribute or an item changes the state of the simulation: control
+                items.append(f".unknown {lstr('assignment to ' + ast.unparse(s.targets[0])[:50])}")
         elif isinstance(s, ast.If):
             g = guard_of(s.test)
             if g and len(s.body) == 1 and isinstance(s.body[0], ast.Expr) and isinstance(s.body[0].value, ast.Call) and not s.orelse:
